@@ -6,13 +6,16 @@ from checks import wlfam
 
 def lists(rng, n):
     pool = wlfam.CAPITALISABLE + wlfam.UNCAP + ["Polish", "polish", "One", "Ice-Cream", "Ice-cream", "ice-Cream", "O'Neil", "Größe", "usa", "Usa", "mcDonald",
-                                                "McDonald", "Mcdonald", "ǆ", "ǅ", "Ǆ", "ß", "ǰ", "new york", "New York", "New york", "a", "A", "é", "É", "é́"]
+                                                "McDonald", "Mcdonald", "ǆ", "ǅ", "Ǆ", "ß", "ǰ", "new york", "New York", "New york", "a", "A", "é", "É", "é́",
+                                                "pad ", "pad", " pad", "line\r", "line", "\ttab", "nb\u00a0", "nb", "wide\u3000", "iPhone", "IPhone", "pOLISH", "POLISH"]
     out = [["polish", "Polish", "one"], ["Polish", "polish"], ["usa", "USA"], ["USA", "usa"], ["mcDonald", "McDonald"], ["one"], ["One"],
            ["ice-cream", "Ice-Cream", "Ice-cream"], ["new york", "New York", "New york"], ["a", "A", "a", "A"], ["ǆ", "ǅ", "Ǆ"],
            ["ǆemal", "ǅemal", "one"], ["ᾀδω", "ᾈδω"], ["ⅷ", "Ⅷ", "two"], ["ab", "c"], ["a", "bc"], ["ab", "c"], ["zaz", "a", "zb"], ["za", "za", "zb"],
            ["Polishpo", "lish", "five"], ["Polish", "polish", "five"], ["us", "US"], ["US", "us"],
            ["ice-Cream", "Ice-cream"], ["Ice-cream", "ice-Cream", "ice-cream"], ["o'neil", "o'Neil"], ["x-ray", "x-Ray", "one"], ["ırmak", "irmak"],
-           ["polish", "Polish", "Polish"], ["Polish", "polish", "Polish", "Polish", "one"]]
+           ["polish", "Polish", "Polish"], ["Polish", "polish", "Polish", "Polish", "one"],
+           ["pad ", "pad", "other"], ["line\r", "line"], [" x", "x ", "x"], ["nb\u00a0", "nb"], ["iPhone", "IPhone"], ["pOLISH", "POLISH", "polish"],
+           ["new York", "New York"], ["one", "one", "one"], ["a", "a", "a", "a", "b"], ["b", "a", "a", "a", "a", "a"]]
     while len(out) < n:
         k = rng.randint(1, 9)
         out.append([rng.choice(pool) for _ in range(k)])
